@@ -110,7 +110,7 @@ inductive FP where
   | overNone (map : FMap)
   | overIndex (map : FMap) (c : Chain)
   | overPersp (map : FMap) (p : FP)
-deriving Repr, Inhabited
+deriving Repr, Inhabited, DecidableEq
 
 def FP.map : FP → FMap
   | .overNone m => m
